@@ -131,6 +131,14 @@ Edits(S, doc, roots) ==
   {AppendEd("subscriptionSecondRoot", d, <<FieldNode(d, 0, "tick", "t2")>>) :
       d \in {x \in 1..Len(doc.defs) : doc.defs[x].k = "op" /\ doc.defs[x].kind = "subscription"}}
   \cup
+  \* 8b. ... also when the single root item is an inline fragment on the subscription type that holds two fields
+  {LET keep == {i \in NodeIds(doc) : doc.nodes[i].d # d}
+       k == Cardinality(keep) + 1
+   IN  Ed("subscriptionRootsViaInline", d, "full", NoSet, NoDSet,
+          <<InlineNode(d, 0, DefType(doc, roots, d)), FieldNode(d, k, "tick", ""), FieldNode(d, k, "tick", "t2")>>,
+          FALSE, SetToSortSeq(keep, <)) :
+      d \in {x \in 1..Len(doc.defs) : doc.defs[x].k = "op" /\ doc.defs[x].kind = "subscription"}}
+  \cup
   \* 9. anonymous operations: `query { .. }` and the bare `{ .. }` shorthand
   {SetDef("anonymousOperation", doc, d, "", doc.defs[d].kind, "") :
       d \in {x \in 1..Len(doc.defs) : doc.defs[x].k = "op"}}
